@@ -628,8 +628,12 @@ func ruleC16Shared(c *Ctx, r *Rep) {
 		}
 		return true
 	})
+	if procCall == nil {
+		r.Undecided("iter", fd.Pos(), "call of cli.process not found")
+		return
+	}
 	if withIter == nil || procIter == nil {
-		r.Undecided("iter", fd.Pos(), "WithInputIter(iter) or process(iter, …) with a plain variable argument not found")
+		r.Bad("same-variable", procCall.Pos(), "gojq.WithInputIter and cli.process are not both given a plain iterator variable: `input`/`inputs` and the main loop must draw from one shared iterator (each value exactly once, in stream order); a second iterator over the same arguments re-reads the files")
 		return
 	}
 	r.Check(withIter == procIter, "same-variable", procCall.Pos(), "the iterator given to WithInputIter and the one process consumes are the same variable: %v", withIter == procIter)
@@ -722,7 +726,7 @@ func ruleC16Sticky(c *Ctx, r *Rep) {
 				kind = "end"
 			} else if isErrField(rs.Results[0]) {
 				kind = "error(stored)"
-			} else if t0 := info.TypeOf(rs.Results[0]); t0 != nil && t0.String() == "error" {
+			} else if t0 := info.TypeOf(rs.Results[0]); t0 != nil && !isEmptyIface(t0) && types.Implements(t0, types.Universe.Lookup("error").Type().Underlying().(*types.Interface)) {
 				kind = "error"
 			}
 			if kind == "" || kind == "error(stored)" {
